@@ -22,11 +22,238 @@
 //!  * `wrong-endpoint`  — the receiving connection belongs to another endpoint id.
 #[path = "../relayreg.rs"]
 mod relayreg;
+use bytes::Bytes;
+use iroh_relay::{
+    KeyCache,
+    http::ProtocolVersion,
+    protos::relay::{ClientToRelayMsg, Datagrams, RelayToClientMsg, Status, verif_hooks as hooks},
+};
+use noq_proto::EcnCodepoint;
 use relayreg::*;
 use std::collections::BTreeMap;
+use std::num::NonZeroU16;
 use vcommon::*;
 
 struct C04;
+
+// ---------------------------------------------------------------------------------------------
+// WIRE mode: payload `W <cap> <keys>;op;…` — the honest client's REAL encoder
+// (`ClientToRelayMsg::to_bytes` via `protos::relay::verif_hooks`) produces the bytes that are fed
+// into the real relay, and every byte string a connection receives is decoded with the REAL
+// client-side decoder (`RelayToClientMsg::from_bytes`) in that connection's protocol version.
+//   wsend c dst ecn seg tok                 honest datagram message (ecn 0..3, seg 0 = none)
+//   wmut  c dst ecn seg tok kind a b        the honest encoding, then: `trunc` to a bytes |
+//                                           `flip` byte a by xor b | `app`end a bytes of value b
+//   wraw  c hex                             arbitrary bytes
+// `<keys>`: the 32-byte keys of endpoints 0..7 and one invalid key (hex, comma separated), so
+// that the Lean side knows which key bytes are valid and whose they are.
+
+fn invalid_key() -> [u8; 32] {
+    for i in 2u8..=255 {
+        let b = [i; 32];
+        if iroh_base::PublicKey::try_from(&b[..]).is_err() {
+            return b;
+        }
+    }
+    panic!("no invalid key found");
+}
+
+fn keys_field() -> String {
+    let mut v: Vec<String> = (0..NUM_IDS).map(|i| hex(key(i).as_bytes())).collect();
+    v.push(hex(&invalid_key()));
+    v.join(",")
+}
+
+fn honest_bytes(dst: usize, ecn: u8, seg: u16, contents: &[u8]) -> Vec<u8> {
+    let msg = ClientToRelayMsg::Datagrams {
+        dst_endpoint_id: key(dst),
+        datagrams: Datagrams {
+            ecn: EcnCodepoint::from_bits(ecn).filter(|_| ecn & 3 != 0),
+            segment_size: NonZeroU16::new(seg),
+            contents: Bytes::copy_from_slice(contents),
+        },
+    };
+    hooks::client_to_relay_to_bytes(&msg).to_vec()
+}
+
+fn parse_wire_op(s: &str) -> Option<Op> {
+    let t: Vec<&str> = s.split(' ').filter(|x| !x.is_empty()).collect();
+    let n = |i: usize| -> Option<usize> { t.get(i)?.parse().ok() };
+    let bytes = match *t.first()? {
+        "wsend" if t.len() == 6 => honest_bytes(n(2)?, n(3)? as u8, n(4)? as u16, &tok_bytes(t[5])?),
+        "wmut" if t.len() == 9 => {
+            let mut b = honest_bytes(n(2)?, n(3)? as u8, n(4)? as u16, &tok_bytes(t[5])?);
+            let (a, x) = (n(7)?, n(8)? as u8);
+            match t[6] {
+                "trunc" => b.truncate(a),
+                "flip" => {
+                    if a < b.len() {
+                        b[a] ^= x;
+                    }
+                }
+                "app" => b.extend(std::iter::repeat_n(x, a)),
+                _ => return None,
+            }
+            b
+        }
+        "wraw" if t.len() == 3 => unhex(t[2])?,
+        _ => return None,
+    };
+    Some(Op::Raw { c: n(1)?, desc: s.to_string(), bytes, contents: None })
+}
+
+fn cstr(bs: &[u8]) -> String {
+    let mut sum: u64 = 0;
+    for (i, b) in bs.iter().enumerate() {
+        sum = (sum + (i as u64 + 1) * *b as u64) % 4294967296;
+    }
+    format!("{}:{}", bs.len(), sum)
+}
+
+fn id_of(k: &iroh_base::EndpointId) -> usize {
+    (0..NUM_IDS).find(|i| key(*i) == *k).unwrap_or(999)
+}
+
+/// What the receiving client makes of the bytes (the real decoder, in its version).
+fn client_decode(bytes: &[u8], v1: bool) -> Result<RelayToClientMsg, String> {
+    let v = if v1 { ProtocolVersion::V1 } else { ProtocolVersion::V2 };
+    hooks::relay_to_client_from_bytes(Bytes::copy_from_slice(bytes), &KeyCache::new(0), v).map_err(|e| format!("{e}"))
+}
+
+fn show_client(m: &Result<RelayToClientMsg, String>) -> String {
+    match m {
+        Ok(RelayToClientMsg::Datagrams { remote_endpoint_id, datagrams }) => format!(
+            "D{}.{}.{}.{}",
+            id_of(remote_endpoint_id),
+            datagrams.ecn.map_or(0, |e| e as u8),
+            datagrams.segment_size.map_or(0, u16::from),
+            cstr(&datagrams.contents)
+        ),
+        Ok(RelayToClientMsg::EndpointGone(k)) => format!("G{}", id_of(k)),
+        Ok(RelayToClientMsg::Status(Status::Healthy)) => "S0".into(),
+        Ok(RelayToClientMsg::Status(Status::SameEndpointIdConnected)) => "S1".into(),
+        Ok(RelayToClientMsg::Status(_)) => "S?".into(),
+        Ok(RelayToClientMsg::Health { problem }) => match HEALTH_TEXTS.iter().position(|x| *x == problem) {
+            Some(n) => format!("H{n}"),
+            None => "H?".into(),
+        },
+        Ok(RelayToClientMsg::Pong(d)) => format!("P{}", hex(d)),
+        Ok(RelayToClientMsg::Ping(d)) => format!("I{}", hex(d)),
+        Ok(RelayToClientMsg::Restarting { .. }) => "R".into(),
+        Ok(_) => "?".into(),
+        Err(_) => "E".into(),
+    }
+}
+
+fn wire_render(tr: &Trace) -> String {
+    let mut parts = Vec::new();
+    for st in &tr.steps {
+        if st.timeout {
+            parts.push("timeout".to_string());
+            continue;
+        }
+        let frames = if st.raw.is_empty() {
+            "-".to_string()
+        } else {
+            st.raw
+                .iter()
+                .map(|(c, fs)| {
+                    let v: Vec<String> = fs.iter().map(|b| show_client(&client_decode(b, tr.v1[*c]))).collect();
+                    format!("c{c}[{}]", v.join(","))
+                })
+                .collect::<Vec<_>>()
+                .join("")
+        };
+        let ended = if st.ended.is_empty() {
+            "-".to_string()
+        } else {
+            st.ended.iter().map(|x| x.to_string()).collect::<Vec<_>>().join(",")
+        };
+        parts.push(format!("{} {} X{} {}", st.res, frames, ended, Trace::snap_str(&st.snap)));
+    }
+    parts.join("|")
+}
+
+/// The receiving client's real decoder must see exactly what the hand decoder of the harness sees.
+fn check_client_decode(tr: &Trace, ex: &mut Exec) {
+    for (i, st) in tr.steps.iter().enumerate() {
+        for (c, fs) in &st.raw {
+            for (j, b) in fs.iter().enumerate() {
+                let real = client_decode(b, tr.v1[*c]);
+                let hand = &st.frames[c][j];
+                let same = match (&real, hand) {
+                    (Ok(RelayToClientMsg::Datagrams { remote_endpoint_id, datagrams }), Frame::Datagrams { src, ecn, seg, contents }) => {
+                        remote_endpoint_id.as_bytes() == src
+                            && datagrams.ecn.map_or(0, |e| e as u8) == *ecn
+                            && datagrams.segment_size.map_or(0, u16::from) == *seg
+                            && datagrams.contents[..] == contents[..]
+                    }
+                    (Ok(RelayToClientMsg::EndpointGone(k)), Frame::Gone(g)) => k.as_bytes() == g,
+                    (Ok(RelayToClientMsg::Status(_)), Frame::Status(_)) => true,
+                    (Ok(RelayToClientMsg::Health { problem }), Frame::Health(t)) => problem.as_bytes() == &t[..],
+                    (Ok(RelayToClientMsg::Pong(d)), Frame::Pong(p)) => d == p,
+                    (Ok(RelayToClientMsg::Ping(d)), Frame::Ping(p)) => d == p,
+                    _ => false,
+                };
+                if !same {
+                    ex.violation(
+                        "client-decode-mismatch",
+                        format!("step {i} conn {c}: client decodes {} but the wire says {}", show_client(&real), tr.frame_str(hand)),
+                    );
+                }
+            }
+        }
+    }
+}
+
+enum Wire {
+    /// a datagram frame the relay's decoder accepts: (dst, ecn, seg, contents)
+    Datagram(usize, u8, u16, Vec<u8>),
+    /// ping / pong
+    Harmless,
+    Reject,
+}
+
+/// Client → relay frame, decoded by hand from the wire format.
+fn parse_c2r(b: &[u8]) -> Wire {
+    let Some(&b0) = b.first() else { return Wire::Reject };
+    let w = 1usize << (b0 >> 6);
+    if b.len() < w {
+        return Wire::Reject;
+    }
+    let mut tag = (b0 & 0x3f) as u64;
+    for x in &b[1..w] {
+        tag = tag << 8 | *x as u64;
+    }
+    let rest = &b[w..];
+    if tag > 13 || rest.len() > 65536 {
+        return Wire::Reject;
+    }
+    match tag {
+        4 | 5 => {
+            if rest.len() < 32 {
+                return Wire::Reject;
+            }
+            let Some(dst) = (0..NUM_IDS).find(|i| key(*i).as_bytes()[..] == rest[..32]) else {
+                return Wire::Reject;
+            };
+            let d = &rest[32..];
+            if tag == 5 {
+                if d.len() < 3 {
+                    return Wire::Reject;
+                }
+                Wire::Datagram(dst, d[0] & 3, u16::from_be_bytes([d[1], d[2]]), d[3..].to_vec())
+            } else {
+                if d.is_empty() {
+                    return Wire::Reject;
+                }
+                Wire::Datagram(dst, d[0] & 3, 0, d[1..].to_vec())
+            }
+        }
+        9 | 10 if rest.len() == 8 => Wire::Harmless,
+        _ => Wire::Reject,
+    }
+}
 
 const LIMIT_SINGLE: usize = 65536 - 32 - 1; // largest contents the decoder accepts (single)
 const LIMIT_BATCH: usize = 65536 - 32 - 3;
@@ -170,6 +397,72 @@ fn random_script(rng: &mut Rng, max_ops: usize, big: bool) -> Script {
     Script { cap, ops }
 }
 
+fn wire_tok(rng: &mut Rng) -> String {
+    match rng.below(12) {
+        0..=7 => {
+            let n = rng.range(1, 8) as usize;
+            hex(&rng.bytes(n))
+        }
+        8 => format!("p{}.{}", rng.range(33, 2000), rng.below(50)),
+        9 => format!("p{}.{}", 65499 + rng.range(0, 5), rng.below(5)),
+        10 => "-".into(),
+        _ => format!("p{}.{}", rng.range(2000, 40000), rng.below(5)),
+    }
+}
+
+/// One wire-mode script: two or three endpoints (V1 and V2 receivers, a duplicate), honest
+/// messages, mutated encodings and raw bytes, an occasional stall.
+fn wire_case(rng: &mut Rng, kf: &str) -> String {
+    let cap = *rng.pick(&[1usize, 2, 4, 0]);
+    let mut ops: Vec<String> = Vec::new();
+    let nids = rng.range(2, 3) as usize;
+    let mut nconn = 0;
+    for id in 0..nids {
+        ops.push(format!("reg {id} {}", rng.range(1, 2)));
+        nconn += 1;
+    }
+    let k = rng.range(3, 12);
+    for _ in 0..k {
+        let c = rng.usize_below(nconn);
+        let dst = if rng.chance(9, 10) { rng.usize_below(nids) } else { rng.range(3, 6) as usize };
+        let ecn = rng.below(4);
+        let seg = *rng.pick(&[0u16, 0, 1, 3, 1200, 65535]);
+        match rng.below(100) {
+            0..=54 => ops.push(format!("wsend {c} {dst} {ecn} {seg} {}", wire_tok(rng))),
+            55..=69 => {
+                // mutate the honest encoding, never inside the key (offsets 1..=32)
+                let tok = hex(&{
+                    let n = rng.range(1, 6) as usize;
+                    rng.bytes(n)
+                });
+                let hdr = 33 + 1 + if seg != 0 { 2 } else { 0 };
+                match rng.below(4) {
+                    0 => ops.push(format!("wmut {c} {dst} {ecn} {seg} {tok} trunc {} 0", rng.below(hdr as u64 + 4))),
+                    1 => ops.push(format!("wmut {c} {dst} {ecn} {seg} {tok} flip 0 {}", rng.range(1, 255))),
+                    2 => ops.push(format!("wmut {c} {dst} {ecn} {seg} {tok} flip {} {}", 33 + rng.below(hdr as u64 - 33 + 2), rng.range(1, 255))),
+                    _ => ops.push(format!("wmut {c} {dst} {ecn} {seg} {tok} app {} {}", rng.range(1, 40), rng.byte())),
+                }
+            }
+            70..=77 => {
+                let n = rng.range(0, 12) as usize;
+                ops.push(format!("wraw {c} {}", hex(&rng.bytes(n))));
+            }
+            78..=83 => {
+                ops.push(format!("reg {} {}", rng.usize_below(nids), rng.range(1, 2)));
+                nconn += 1;
+            }
+            84..=88 => ops.push(format!("close {c}")),
+            89..=93 => ops.push(format!("stall {c}")),
+            94..=97 => ops.push(format!("unstall {c}")),
+            _ => ops.push(format!("ping {c} {}", hex(&rng.bytes(8)))),
+        }
+    }
+    for c in 0..nconn {
+        ops.push(format!("unstall {c}"));
+    }
+    format!("W {cap} {kf};{}", ops.join(";"))
+}
+
 /// Alphabet of the exhaustive enumeration (prelude: `reg 0 2;reg 1 2`).
 fn alphabet() -> Vec<Op> {
     let send = |c: usize, dst: usize, t: &str| Op::Send { c, dst, batch: false, ecn: 1, seg: 0, tok: t.into() };
@@ -231,6 +524,22 @@ impl Prop for C04 {
                 }
             }
         }
+        // wire mode: real client encoder -> relay -> real client decoder
+        let kf = keys_field();
+        for s in [
+            "2;reg 0 2;reg 1 1;wsend 0 1 0 0 aa;wsend 0 1 1 0 bb;wsend 0 1 2 1200 p2400.1;wsend 0 1 3 65535 0102;wsend 1 0 3 1 cc;wsend 0 0 1 0 dd",
+            "2;reg 0 2;reg 1 2;wsend 1 0 0 0 p65502.1;wsend 1 0 0 0 p65503.1;wsend 1 0 0 9 p65500.1;wsend 1 0 0 9 p65501.1;wsend 1 0 0 0 -;wsend 1 0 1 0 aa",
+            "2;reg 0 2;reg 1 2;wsend 1 0 0 0 p65504.1;wsend 0 1 0 0 aa",
+            "2;reg 0 2;reg 1 2;wraw 1 0401;ping 0 0102030405060708;wsend 0 1 0 0 aa",
+            "2;reg 0 1;reg 1 2;reg 0 2;stall 2;wsend 1 0 2 3 010203040506;reg 0 1;wsend 1 0 1 0 0a;unstall 2;close 3;wsend 1 0 3 0 0b;close 1",
+            "1;reg 0 2;reg 1 2;wmut 1 0 1 0 aabbcc trunc 20 0;reg 1 2;wmut 2 0 1 7 aabbcc flip 0 1;wmut 2 0 1 7 aabbcc flip 0 3;wmut 2 0 2 0 aabbcc app 3 9",
+        ] {
+            out.push(format!("W {} {kf};{}", s.split_once(';').unwrap().0, s.split_once(';').unwrap().1));
+        }
+        let nwire = if tier == Tier::Thorough { n / 4 } else { 120 };
+        for _ in 0..nwire {
+            out.push(wire_case(rng, &kf));
+        }
         let max_ops = if tier == Tier::Thorough { 40 } else { 30 };
         let target = out.len() + n;
         while out.len() < target {
@@ -240,6 +549,30 @@ impl Prop for C04 {
     }
 
     fn execute(&mut self, payload: &str) -> Exec {
+        if let Some(rest) = payload.strip_prefix("W ") {
+            // wire mode: `W <cap> <keys>;ops`
+            let Some((hd, ops)) = rest.split_once(';') else {
+                return Exec::new("bad-input").tag("bad-input");
+            };
+            let Some((cap, keys)) = hd.trim().split_once(' ') else {
+                return Exec::new("bad-input").tag("bad-input");
+            };
+            if keys.trim() != keys_field() {
+                return Exec::new("bad-input").tag("bad-keys");
+            }
+            let Some(script) = Script::parse_with(&format!("{cap};{ops}"), &parse_wire_op) else {
+                return Exec::new("bad-input").tag("bad-input");
+            };
+            let tr = match run_checked(&script) {
+                Ok(tr) => tr,
+                Err(e) => return Exec::new(e).tag("nondeterministic"),
+            };
+            let mut ex = Exec::new(wire_render(&tr));
+            check_client_decode(&tr, &mut ex);
+            oracle(&script, &tr, &mut ex);
+            ex.tags.push("wire-mode".into());
+            return ex;
+        }
         let Some(script) = Script::parse(payload) else {
             return Exec::new("bad-input").tag("bad-input");
         };
@@ -308,33 +641,46 @@ fn oracle(_script: &Script, tr: &Trace, ex: &mut Exec) {
                     }
                 }
             }
-            Op::Send { c, dst, batch, ecn, seg, tok } if *c < nconn && !ended[*c] => {
-                let contents = tok_bytes(tok).unwrap();
-                let decodable = 32 + 1 + if *batch { 2 } else { 0 } + contents.len() <= 65536;
-                if !decodable {
-                    if stalled[*c] {
-                        backlog[*c].push(None);
+            Op::Send { c, .. } | Op::Raw { c, .. } if *c < nconn && !ended[*c] => {
+                let w = match &st.op {
+                    Op::Send { dst, batch, ecn, seg, tok, .. } => {
+                        let contents = tok_bytes(tok).unwrap();
+                        if 32 + 1 + if *batch { 2 } else { 0 } + contents.len() <= 65536 {
+                            // what a receiver is entitled to see: ECN reduced to its two bits, segment
+                            // size only for batch frames (0 = a single datagram)
+                            Wire::Datagram(*dst, ecn & 3, if *batch { *seg } else { 0 }, contents)
+                        } else {
+                            Wire::Reject
+                        }
                     }
-                } else {
-                    // what a receiver is entitled to see: ECN reduced to its two bits, segment
-                    // size only for batch frames (0 = a single datagram)
-                    let rec = Rec {
-                        sender: *c,
-                        src: tr.owner[*c],
-                        dst: *dst,
-                        ecn: ecn & 3,
-                        seg: if *batch { *seg } else { 0 },
-                        contents,
-                        target: None,
-                        consumed: false,
-                        skipped: false,
-                    };
-                    recs.push(rec);
-                    let ri = recs.len() - 1;
-                    if stalled[*c] {
-                        backlog[*c].push(Some(ri));
-                    } else {
-                        recs[ri].target = prev.entries.get(dst).map(|e| e.0);
+                    Op::Raw { bytes, .. } => parse_c2r(bytes),
+                    _ => unreachable!(),
+                };
+                match w {
+                    Wire::Harmless => {}
+                    Wire::Reject => {
+                        if stalled[*c] {
+                            backlog[*c].push(None);
+                        }
+                    }
+                    Wire::Datagram(dst, ecn, seg, contents) => {
+                        recs.push(Rec {
+                            sender: *c,
+                            src: tr.owner[*c],
+                            dst,
+                            ecn,
+                            seg,
+                            contents,
+                            target: None,
+                            consumed: false,
+                            skipped: false,
+                        });
+                        let ri = recs.len() - 1;
+                        if stalled[*c] {
+                            backlog[*c].push(Some(ri));
+                        } else {
+                            recs[ri].target = prev.entries.get(&dst).map(|e| e.0);
+                        }
                     }
                 }
             }
